@@ -506,7 +506,16 @@ def gen(rng, n, tier):
         elif r < 0.76:
             resp = rng.chance(0.4)
             o = rng.choice([STRICT, LENIENT, {"bare_lf_ok": True, "cr_as_sp": False, "unfold": False}, {"bare_lf_ok": False, "cr_as_sp": True, "unfold": True}])
-            c = {"k": "ref", "resp": resp, "o": o, "s": hx(gen_ref_stream(rng, resp))}
+            if rng.chance(0.45):      # mostly well-formed streams, as the end-to-end oracle meets them
+                k = rng.randint(1, 3)
+                if resp:
+                    rs = [gen_e2e_response(rng) for _ in range(k)]
+                    stream = b"".join(unhx(x["b"]) for x in rs)
+                else:
+                    stream = b"".join(gen_e2e_request(rng, i) for i in range(k))
+            else:
+                stream = gen_ref_stream(rng, resp)
+            c = {"k": "ref", "resp": resp, "o": o, "s": hx(stream)}
             if resp:
                 c["methods"] = [hx(rng.choice(METHODS[:5])) for _ in range(rng.randint(1, 3))]
             out.append(c)
